@@ -1,4 +1,5 @@
 import NanoVerif.Props.C11
+import NanoVerif.Proofs.Sched
 /-
 C08 — The build is a function of its inputs (the canonicalisation half).
 Wherever a `set` feeds an ordered output nanoemoji sorts it by a key that is injective on the set
@@ -40,6 +41,25 @@ theorem sort_enumeration_independent (key : α → Nat) {l₁ l₂ : List α} (h
   have ha' : a ∈ l₁ := (C11.sortByKey_perm key l₁).subset ha
   have hb' : b ∈ l₁ := h.symm.subset ((C11.sortByKey_perm key l₂).subset hb)
   exact inj a ha' b hb' hk
+
+/-- **C08.2 (schedule independence)**: model the build as a graph of pure steps (each output a function of the
+contents of its declared inputs).  Any two schedules in which every step runs once and after its inputs — ninja
+`-j1`, `-j16`, any ready-queue order — leave the same content in every file, from any starting directory.
+For all graphs, all step functions, all schedules. -/
+theorem schedule_independent (G : BuildGraph) (s1 s2 : List Nat) (env : Nat → Nat)
+    (h1 : G.Valid [] s1) (h2 : G.Valid [] s2) (hp : ∀ n, n ∈ s1 ↔ n ∈ s2) :
+    ∀ m, G.run s1 env m = G.run s2 env m :=
+  run_schedule_independent G s1 s2 env h1 h2 hp
+
+/-- the diamond `0 → {1, 2} → 3` used by the ninja tie: both orders of the middle steps are valid schedules -/
+def diamond : BuildGraph :=
+  { deps := fun n => if n = 1 then [0] else if n = 2 then [0] else if n = 3 then [1, 2] else [],
+    f := fun n vals => vals.foldl (· + ·) 0 * 31 + n * 7 + 1 }
+
+example : diamond.Valid [] [0, 1, 2, 3] ∧ diamond.Valid [] [0, 2, 1, 3] := by
+  simp [BuildGraph.Valid, diamond]
+
+example : diamond.run [0, 1, 2, 3] (fun _ => 0) 3 = diamond.run [0, 2, 1, 3] (fun _ => 0) 3 := by decide +kernel
 
 example : sortByKey (fun (p : Nat × String) => p.1) [(3, "c"), (1, "a"), (2, "b")] =
     sortByKey (fun (p : Nat × String) => p.1) [(2, "b"), (3, "c"), (1, "a")] := by decide +kernel
